@@ -321,7 +321,16 @@ def outputsOf (iters : List Iter) : List (Nat × String) :=
     (it.tx.map fun ((ifi, v4, dest, b) : Nat × Bool × String × BList) =>
       (it.now, s!"tx {it.d} {ifi} {boolTok v4} {dest} {packetKey b}")) ++
     (it.evs.map fun ((ch, toks) : Nat × List String) =>
-      (it.now, s!"ev {it.d} {ch} {joinToks toks}")) ++
+      -- the payload of some events is printed from a hash set (the address list of the first
+      -- Announce of a service, metrics, resolved address sets): keyed by kind and subject only
+      let canon := match toks with
+        | "announce" :: n :: _ => ["announce", n]
+        | "metrics" :: _ => ["metrics"]
+        | "resolved" :: _ => ["resolved", ((toks[3]?).getD ""), ((toks[2]?).getD "")]
+        | "hfound" :: h :: _ => ["hfound", h]
+        | "hremoved" :: h :: _ => ["hremoved", h]
+        | _ => toks
+      (it.now, s!"ev {it.d} {ch} {joinToks canon}")) ++
     (match it.ended with | some p => [(it.now, s!"end {it.d} {p}")] | none => [])
 
 /-- time of the k-th occurrence of `key` -/
